@@ -2,9 +2,9 @@
     conforms to the independent lexical rule of the declared type ([lexical_ok], Model/ScalarsLex.v): Y|N; [+-]?digits; plain decimal notation
     with at most one separator (no exponent, NaN or Infinity); a declared token; length within the declared limit.  Hence a value that cannot
     be written validly is refused rather than written.  Exposed for reuse by the schema engine's to_etree_leaves_lexical. *)
-From OfxV Require Import Base.Prelude Base.Digits Gen.ScalarsGen Model.PyDecimal Model.Scalars Model.ScalarsLex Proofs.ScalarsText Proofs.PyDecimalProofs Proofs.ScalarsProofs Proofs.ScalarsLexProofs.
+From OfxV Require Import Base.Prelude Base.Digits Gen.ScalarsGen Model.PyDecimal Model.Scalars Model.ScalarsLex Proofs.ScalarsText Proofs.PyDecimalProofs Proofs.ScalarsProofs Proofs.ScalarsLexProofs Proofs.ScalarsThms.
 Local Open Scope N_scope.
 
 Theorem unconvert_lexical : forall e v s w, unconvert e v = OK (Some s, w) -> lexical_ok (elem_sty e) s = true.
-Proof. intros e v s w. rewrite unconvert_elem. apply unconvert_lexical_sty. Qed.
+Proof. exact unconvert_lexical_l. Qed.
 Print Assumptions unconvert_lexical.
